@@ -202,7 +202,7 @@ def execute(desc, ctx):
 
 
 SUBCHECKS = [
-    Sub('roundtrip', execute, strategy=case_strategy, quick=4000, thorough=240000, floor=50,
+    Sub('roundtrip', execute, strategy=case_strategy, quick=4000, thorough=120000, floor=50,
         must_hit=('block', 'esc', 'esc_block_name', 'empty_block', 'unicode',
                   'delivery:chunks', 'delivery:file', 'delivery:lines', 'delivery:chars', 'delivery:special')),
 ]
